@@ -86,7 +86,7 @@ def native_accuracy(n, kind, scale, root, dtname, cfgname, seed, eps_ratio=None)
     want, cond = _oracle(A64, root, eps)
     try:
         Ain = A64.to(dt)
-        if seed % 2 == 1:
+        if (n + len(kind) + Fraction(root).numerator + len(cfgname) + seed) % 2 == 1:
             # the same symmetric matrix in column-major memory layout (a transposed view, as torch.linalg.* outputs are): strides must not matter
             Ain = (A64.T.contiguous().to(dt)).T
         X = M.matrix_inverse_root(Ain, Fraction(root), root_inv_config=cfg, epsilon=eps)
